@@ -557,15 +557,23 @@ def _alternatives(F, i, depth=3):
 
 
 def _thread_fields_written(F):
+    """ABTI_thread fields stored by F (plain stores, atomic store wrappers), also through a local pointer to the field."""
+    def fld(a):
+        fo = F.field_of(seq._through_pointer_temp(F, a))
+        if fo is None:
+            n = F.nodes[F.strip(a)]
+            if n.get("k") == "un" and n["op"] == "*":          # *q with q = &p->field
+                fo = F.field_of(seq._through_pointer_temp(F, n["e"]))
+        return fo
     out = set()
     for _b, i, lh, rh in F.stores():
-        fo = F.field_of(lh)
+        fo = fld(lh)
         if fo and fo[0] == "ABTI_thread":
             out.add(fo[1])
     for _b, i in F.calls():
         nd = F.nodes[i]
         if (nd.get("fn") or "").startswith("ABTD_atomic_") and "store" in nd["fn"] and nd["a"]:
-            fo = F.field_of(nd["a"][0])
+            fo = fld(nd["a"][0])
             if fo and fo[0] == "ABTI_thread":
                 out.add(fo[1])
     return out
